@@ -52,8 +52,6 @@ theorem select32R64_eq (ws sidx ridx : List Nat) (i : Nat) :
     select32R64 ws sidx ridx i =
       (sidx[i / 32]?).bind fun s => (r64Skip i (ridx.drop (s / 64 + 1)) (s / 64)).bind (r64After ws ridx i) := rfl
 
-def castPair (p : Nat × Nat) : Int × Int := ((p.1 : Int), (p.2 : Int))
-
 /-- the code after the in-word search -/
 theorem Select32R64_tail_eq (fuel : Nat) (ws : List Nat) (sidx ridx : List Int) (i : Int) (w wordI a0 : Nat)
     (hlen : ws.length < 2 ^ 25) (hfuel : ws.length + 1 ≤ fuel) (hwI : wordI < ws.length) (ha0 : a0 ≤ 64) :
@@ -116,7 +114,7 @@ theorem Select32R64_exit (fuel : Nat) (ws ridx : List Nat) (sidx : List Int) (i 
         | none => simp
         | some a0 =>
           have ha0 := selWord_le hs
-          simp only [Option.bind_some]
+          rw [Option.bind_some, Option.bind_some]
           rw [Select32R64_tail_eq fuel ws sidx _ _ w wordI a0 (by simp only [Nat.reducePow]; exact hlen) hfuel hwI ha0]
           generalize w &&& rmaskUpto ((a0 + wordI * 64) % 64) = x
           by_cases h0 : x = 0 <;> simp [h0]
